@@ -48,6 +48,11 @@ def docs_check(chk, prop, libname, decl_dir, netcdf):
             chk.finding("%s:%s:Docs.%s:%s.%s" % (prop, libname, what, cname, pname),
                         "the documentation declares %s(%s) as %s %s, the command class does not: a model written from the documentation is judged differently" % (
                             cname, pname, "required" if docp[2] else "optional", docp[1]), {"command": cname, "parameter": pname, "documented": docp})
+    got = core.parse_printt(r.out, "FUZZ")
+    for cname in (got[0][1] if got else []):
+        n += 1
+        chk.finding("%s:%s:Docs.FuzzinessDiffers:%s" % (prop, libname, cname), "the command %s is documented to produce a %s result, the command class declares otherwise" % (
+            cname, [c[2] for c in dd if c[0] == cname][0]), {"command": cname})
     got = core.parse_printt(r.out, "UNDECLARED")
     for cname in (got[0][1] if got else []):
         n += 1
@@ -225,10 +230,37 @@ def make_fixture(wd, netcdf):
             a[:] = numpy.arange(6, dtype=float).reshape(2, 3)
 
 
+def api_load(src, libs, wd):
+    """the same model assembled through the programming interface: Program.add_command with plain values (no parser arguments, hence no argument lines)"""
+    from collections import OrderedDict
+    from mpilot.program import Program
+    from mpilot.parser.parser import Parser
+    from mpilot.exceptions import CommandDoesNotExist
+
+    def plain(x):
+        v = x.value if type(x).__name__ == "ExpressionNode" else x
+        if isinstance(v, list):
+            return [plain(y) for y in v]
+        if isinstance(v, dict):
+            return OrderedDict((k, plain(y)) for k, y in v.items())
+        return v
+
+    p = Program(libraries=libs, working_dir=wd)
+    for node in Parser().parse(src).commands:
+        cls = p.find_command_class(node.command)
+        if cls is None:
+            raise CommandDoesNotExist(node.command, node.lineno)
+        p.add_command(cls, node.result_name, OrderedDict((a.name, plain(a.value)) for a in node.arguments), node.lineno)
+    return p
+
+
 def run_one(job):
-    """job = (id, prog, variant, netcdf) -> trace record + info"""
+    """job = (id, prog, variant, netcdf) -> trace record + info.  Modes (by job id): the model loaded from its source text; loaded with an empty
+    working directory from inside its folder; assembled through the API; and - when the command under test is the last one - loaded without its last two
+    commands, run, completed through add_command and run again (what matters is the second run: the rejection precedes every new execution and file)"""
     jid, prog, variant, netcdf = job
     tracer = _W["tracer"]
+    from collections import OrderedDict
     from mpilot.program import Program
 
     src, table = render(prog, variant, netcdf)
@@ -238,12 +270,30 @@ def run_one(job):
     tracer.reset()
     ev = []
     out = io.StringIO()
+    # (a reference to the finished PrintVars result B is judged by its value - None - instead of its declared kind: another, equally specific error;
+    #  such programs are not run in the add-after-run mode)
+    refs_b = '"B"' in json.dumps(prog[-1][2])
+    mode = "cwd" if jid % 5 == 2 else "api" if jid % 7 == 5 else \
+        "late" if (jid % 7 == 6 and len(prog) >= 4 and prog[-1][0] in ("T", "R") and prog[-2][0] != "T" and not refs_b) else "source"
+    nolines = mode in ("api", "late")
     with contextlib.redirect_stdout(out):
         try:
-            if jid % 5 == 2:
+            if mode == "cwd":
                 # as the command-line tool does for a bare file name: the working directory is "" and the process runs inside the model's folder
                 os.chdir(wd)
                 p = Program.from_source(src, libraries=_W["libs"], working_dir="")
+            elif mode == "api":
+                p = api_load(src, _W["libs"], wd)
+            elif mode == "late":
+                head, _ = render(prog[:-2], variant, netcdf)
+                tail, _ = render(prog[-2:], variant, netcdf)
+                p = Program.from_source(head, libraries=_W["libs"], working_dir=wd)
+                p.run()
+                before = set(os.listdir(wd))
+                rest = Program.from_source(tail, libraries=_W["libs"], working_dir=wd)
+                for nm, cmd in rest.commands.items():
+                    p.add_command(type(cmd), nm, OrderedDict((a.name, a) for a in cmd.arguments), cmd.lineno)
+                src = head + "# --- run(), then through add_command: ---\n" + tail
             else:
                 p = Program.from_source(src, libraries=_W["libs"], working_dir=wd)
             ev.append({"ev": "load", "ok": True, "cls": "", "mp": True, "syn": False, "at": [0, ""], "what": "", "params": []})
@@ -253,12 +303,14 @@ def run_one(job):
             d["ev"] = "load"
             ev.append(d)
         if p is not None:
+            tracer.reset()
             tracer.install()
             try:
                 p.run()
                 res = {"ok": True, "cls": "", "mp": True, "syn": False, "at": [0, ""], "what": "", "params": []}
             except BaseException as e:
                 res = describe_error(e, table)
+            done_before = set(prog[k][0] for k in range(len(prog) - 2)) if mode == "late" else set()
             for e in tracer.EV:
                 if e["ev"] == "exec_begin":
                     ev.append({"ev": "exec_begin", "c": e["c"], "kw": e.get("kw", [])})
@@ -268,7 +320,7 @@ def run_one(job):
     new = sorted(set(os.listdir(wd)) - before)
     ev.append({"ev": "files", "n": len(new), "names": new})
     shutil.rmtree(wd, ignore_errors=True)
-    return {"id": jid, "prog": prog, "ev": ev}, src
+    return {"id": jid, "prog": prog, "ev": ev, "nolines": nolines, "mode": mode}, src
 
 
 def run_programs(progs, variants, libs, netcdf=False):
@@ -646,7 +698,7 @@ def check_C13(tier):
     for k in range(core.SEED % step, len(res), step):
         rec, src = res[k]
         pr = progs[jobs[k][0] // max(1, len(res) // len(progs))]
-        if pr["tcmd"] == "Extras":        # the command-line tool only knows the built-in libraries
+        if pr["tcmd"] in ("Extras", "NotAgain"):        # the command-line tool only knows the built-in libraries
             continue
         cjobs.append((len(cjobs), "matrix/%s/%s" % (pr["tcmd"], pr["fault"][0]), src, {}, False))
     for name, src, extra in RUNTIME_SCENARIOS:
